@@ -1,7 +1,6 @@
 package main
 
 import (
-	"encoding/json"
 	"fmt"
 	"reflect"
 	"regexp"
@@ -18,8 +17,8 @@ import (
 // For an expression: a type-tagged walk over the exported structure (int 5,
 // float64 5, "5", Column are all distinct; slice contents up to CAPACITY, so a
 // write into a shared backing array beyond len is visible) plus the two
-// operator-specific private numbers, plus — in the full form — String(),
-// GoString() and the JSON bytes.
+// operator-specific private numbers, plus — in the full form — String() and
+// GoString().
 
 var (
 	offBoost = fieldOffset("boostPower", reflect.Float64)
@@ -296,21 +295,9 @@ func canonFull(e *expr.Expression) string {
 	sb.WriteString(guarded(func() string { return e.String() }))
 	sb.WriteString("|G:")
 	sb.WriteString(guarded(func() string { return e.GoString() }))
-	if len(cs) > 8000 {
-		// the library's MarshalJSON re-compacts every byte once per ancestor level:
-		// quadratic in the depth, seconds for a deep tree. The JSON form of big trees
-		// is exercised by the marshal operations themselves, not by every fingerprint.
-		sb.WriteString("|J:omitted for a big tree")
-		return sb.String()
-	}
-	sb.WriteString("|J:")
-	sb.WriteString(guarded(func() string {
-		b, err := json.Marshal(e)
-		if err != nil {
-			return errText(err)
-		}
-		return string(b)
-	}))
+	// The JSON form is not part of the fingerprint: the structural walk already covers
+	// every field MarshalJSON reads, the marshal operations exercise the encoder itself,
+	// and encoding every fingerprint cost a fifth of a worker's time.
 	return sb.String()
 }
 
